@@ -453,7 +453,103 @@ func scannerNotReconfigured(c *core.Ctx, rule string) {
 	_ = ctors
 }
 
+// ---------------------------------------------------------------- callbacks handed to library decoders
+
+// decoderCallbacksHonourContract: encoding/xml panics ("CharsetReader returned a nil Reader") when the function stored in
+// Decoder.CharsetReader returns a nil reader together with a nil error. When repo code stores one of its own functions
+// there, none of that function's returns may have both results nil (seed C03-17: a 'lenient' wrapper returned (nil, nil)
+// for unknown labels). A library function stored directly (charset.NewReaderLabel) is trusted to honour the contract.
+func decoderCallbacksHonourContract(c *core.Ctx, rule string) {
+	c.SSA()
+	n := 0
+	mayNil := func(v ssa.Value, pred int) bool {
+		if core.IsNilConst(v) {
+			return true
+		}
+		if p, ok := v.(*ssa.Phi); ok && pred >= 0 && pred < len(p.Edges) {
+			return core.IsNilConst(p.Edges[pred])
+		}
+		return false
+	}
+	for _, f := range c.RepoFunctions() {
+		if core.IsCLIOrSample(core.FuncPkg(f)) {
+			continue
+		}
+		for _, w := range core.Writes(f) {
+			if w.Kind != "field" || w.Field == nil || w.Field.Name() != "CharsetReader" || w.Field.Pkg() == nil || w.Field.Pkg().Path() != "encoding/xml" {
+				continue
+			}
+			n++
+			key := core.FuncKey(f) + " sets xml.Decoder.CharsetReader"
+			var target *ssa.Function
+			switch x := w.Val.(type) {
+			case *ssa.Function:
+				target = x
+			case *ssa.MakeClosure:
+				target, _ = x.Fn.(*ssa.Function)
+			}
+			if target == nil {
+				c.Unknown(rule, key, w.Pos, "the stored callback is not a function or closure this rule can inspect")
+				continue
+			}
+			if target.Blocks == nil || !core.InRepo(core.FuncPkg(target)) {
+				c.OK(rule, key, w.Pos, "library function "+target.String()+" stored directly")
+				continue
+			}
+			bad := token.NoPos
+			for _, b := range target.Blocks {
+				if len(b.Instrs) == 0 {
+					continue
+				}
+				ret, ok := b.Instrs[len(b.Instrs)-1].(*ssa.Return)
+				if !ok || len(ret.Results) != 2 {
+					continue
+				}
+				r0, r1 := ret.Results[0], ret.Results[1]
+				// a value converted to the interface from a typed nil cannot be told apart here; constants and phi edges only
+				if core.IsNilConst(r0) && core.IsNilConst(r1) {
+					bad = core.InstrPos(ret)
+				}
+				p0, ok0 := r0.(*ssa.Phi)
+				p1, ok1 := r1.(*ssa.Phi)
+				if ok0 && ok1 && p0.Block() == p1.Block() {
+					for i := range p0.Edges {
+						if mayNil(r0, i) && mayNil(r1, i) {
+							bad = core.InstrPos(ret)
+						}
+					}
+				} else if ok0 && core.IsNilConst(r1) {
+					for i := range p0.Edges {
+						if mayNil(r0, i) {
+							bad = core.InstrPos(ret)
+						}
+					}
+				} else if ok1 && core.IsNilConst(r0) {
+					for i := range p1.Edges {
+						if mayNil(r1, i) {
+							bad = core.InstrPos(ret)
+						}
+					}
+				}
+			}
+			if bad.IsValid() {
+				c.Bad(rule, key, bad, "the repo function stored as CharsetReader can return a nil reader with a nil error: encoding/xml panics (\"CharsetReader returned a nil Reader\") inside Token, i.e. inside Read")
+			} else {
+				c.OK(rule, key, w.Pos, "no return of "+core.FuncKey(target)+" has both results nil")
+			}
+		}
+	}
+	c.Floor(rule, 1, "CharsetReader assignments")
+	_ = n
+}
+
 func init() {
+	wrapRun("C03", func(c *core.Ctx) {
+		if c.CountRule("K23") == 0 {
+			decoderCallbacksHonourContract(c, "K23")
+		}
+	})
+	addDoc("C03", "K23 a repo function stored in xml.Decoder.CharsetReader never returns a nil reader together with a nil error (encoding/xml panics otherwise).")
 	wrapRun("C01", func(c *core.Ctx) {
 		// R01j (= C03 K19): a reader that dereferences its cursor after moving it past the root panics inside Read — the
 		// call returns none of the three permitted results (seed C01-16).
